@@ -35,12 +35,41 @@ def limit_of(F, fn):
     return rec.get('consts', {}).get('SUBSTITUTION_LIMIT')
 
 
+# the limit each machine of witness w_limit was *declared* with (namespace of its states -> limit); every other witness machine uses
+# the default configuration
+W_LIMIT_DECLARED = {'l1': 1, 'l2': 2, 'l3': 3, 'l4': 4, 'l255': 255, 't1': 4, 't2': 4, 't255': 4}
+DEFAULT_LIMIT = 4
+
+
+def configured_limit(F, fn):
+    """(limit held by the configuration type the machine was instantiated with, limit its declaration asked for or None):
+    R_<G_<...>, CI_<...>> -- the first template argument is the configuration, whose own constant is the configured limit (that the
+    setters produce it is C04.e); the machines of w_limit are told apart by the namespace of their states"""
+    rec = F.rec_by_name.get(fn.cls) or {}
+    targs = rec.get('targs') or []
+    cfg = F.rec_by_name.get(targs[0]) if targs else None
+    k_cfg = (cfg or {}).get('consts', {}).get('SUBSTITUTION_LIMIT')
+    declared = None
+    if len(targs) > 1:
+        import re
+        m = re.search(r'CI_<[^,]*,\s*(\w+)::', targs[1])
+        if m and m.group(1) in W_LIMIT_DECLARED:
+            declared = W_LIMIT_DECLARED[m.group(1)]
+    return k_cfg, declared
+
+
 def substitution_loops(run, F, E, label):
     """the loops that apply outstanding requests, wherever they live (entry function or a helper it calls)"""
     for root_name, guard_names in (('processRequest', ('cancelledByGuards',)), ('initialEnter', ('cancelledByEntryGuards',))):
         for root in F.find('R_', root_name):
             K = limit_of(F, root)
             run.require(K is not None, 'SUBSTITUTION_LIMIT constant not found for ' + root.short)
+            k_cfg, declared = configured_limit(F, root)
+            run.require(k_cfg is not None, 'configuration type of %s (first template argument) has no SUBSTITUTION_LIMIT constant' % root.short)
+            ok_cfg = K == k_cfg and (declared is None or declared == K)
+            run.ob('C04.a', 'the limit R_::%s loops to is the configured one (%s)%s [%s]' % (root_name, k_cfg, '' if declared is None else ', declared as %d in the witness' % declared, label),
+                   ok_cfg, where=root.pat, detail={'limit used by the machine': K, 'limit of its configuration type': k_cfg, 'declared': declared},
+                   key='the substitution limit the machine uses is not the configured one')
             found = anchors.substitution_loops(F, E, root)
             if not found:
                 raise AnalysisBroken('no loop that applies outstanding requests is reachable from R_::%s' % root_name)
